@@ -109,7 +109,11 @@ func (regManager *RegistrationManager) OnReload(conf *RegConfig) {
 	}
 
 	// if we made it here via sigHUP then the RegConfig.ParseBlocklists should
-	// already have been called and not erred.
+	// already have been called and not erred. The lists are swapped under the
+	// policy lock so that a worker checking a registration sees either the old
+	// or the new lists, never a mixture (e.g. the allowlist switched on before
+	// its subnets are in place).
+	regManager.RegConfig.policyLock.Lock()
 	regManager.RegConfig.CovertBlocklistSubnets = conf.CovertBlocklistSubnets
 	regManager.RegConfig.covertBlocklistSubnets = conf.covertBlocklistSubnets
 
@@ -124,6 +128,7 @@ func (regManager *RegistrationManager) OnReload(conf *RegConfig) {
 
 	regManager.RegConfig.PhantomBlocklist = conf.PhantomBlocklist
 	regManager.RegConfig.phantomBlocklist = conf.phantomBlocklist
+	regManager.RegConfig.policyLock.Unlock()
 
 	geoipDB, err := geoip.New(conf.DBConfig)
 	if errors.Is(err, geoip.ErrMissingDB) {
